@@ -203,15 +203,33 @@ class EditUser(MethodView):
             result["errors"].append('Only an admin user can modify other users')
             return jsonify(result)
         js = flask.request.json
+        if not isinstance(js, dict):
+            return jsonify_no_content(400)
+        email = js.get('email')
+        if not isinstance(email, str) or email == "":
+            result['errors'].append('email is required')
+        elif email != user.email and User.count(email=email) > 0:
+            result['errors'].append(f'Email address {email} already exists')
         if jwt_current_user.is_admin:
-            user.username = js['username']
-            user.must_change = js['mustChange']
-        user.email = js['email']
-        if js.get('password') is not None and js.get('password') != "":
-            if js['password'] != js['confirmPassword']:
+            username = js.get('username')
+            if not isinstance(username, str) or username == "":
+                result['errors'].append('Username is required')
+            elif username != user.username and User.count(username=username) > 0:
+                result['errors'].append(f'User {username} already exists')
+        password = js.get('password')
+        if password is not None and not isinstance(password, str):
+            result['errors'].append('password must be a string')
+        if result['errors']:
+            return jsonify(result)
+        if jwt_current_user.is_admin:
+            user.username = username
+            user.must_change = bool(js.get('mustChange', user.must_change))
+        user.email = email
+        if password is not None and password != "":
+            if password != js.get('confirmPassword'):
                 result['errors'].append('Passwords do not match')
             else:
-                user.set_password(js['password'])
+                user.set_password(password)
         if jwt_current_user.is_admin:
             groups: list[Group] = []
             for group in Group.names():
